@@ -176,11 +176,13 @@ def judgeLine (line : String) : String :=
                     match acc.1 with
                     | some _ => acc
                     | none =>
+                      -- a query point equidistant from several nodes: the R-tree may pick any of them
+                      if (sn.nearest a).length != 1 || (sn.nearest b).length != 1 then (none, false) else
                       match shortestRoute geoRat pickMin true idOrd net a b, r with
                       | .ok m, .ok ans _ =>
                         let cm := match c.opt with | .distance => m.distance | .time => m.time
                         let ci := match c.opt with | .distance => ans.distance | .time => ans.time
-                        if !closeTo c.exact cm ci then (some s!"q{i}:model-cost-differs", false)
+                        if !closeTo c.exact cm ci then (some s!"q{i}:model-cost-differs(model:{m.links}:{cm}|impl:{ans.links}:{ci}|s={m.startNode},t={m.endNode})", false)
                         else if m.links.isEmpty != ans.links.isEmpty then (some s!"q{i}:emptiness-differs", false)
                         else (none, acc.2 && m.links == ans.links)
                       | .error f, _ => (some s!"q{i}:model-faults-{faultName f}", false)
